@@ -38,7 +38,11 @@ class C02Episode(Episode):
             ep = self
 
             def lift():
-                if op.get('w') is None:
+                if op.get('w') is None and (op.get('props') or {}).get('name'):
+                    # addressed by a pattern: the watchers it matches
+                    for m in ep.markers_of((op['props'] or {})['name']):
+                        ep.stopped_markers.pop(m, None)
+                elif op.get('w') is None:
                     ep.stopped_markers.clear()
                 else:
                     ep.stopped_markers.pop(ep.marker(op['w']), None)
@@ -73,13 +77,26 @@ class C02Episode(Episode):
 
     START_CLASS = ('start', 'restart', 'reload', 'add', 'reloadconfig')
 
+    def markers_of(self, wname):
+        """markers of the watchers a name (or glob pattern) addresses"""
+        import fnmatch
+        import re
+        low = wname.lower()
+        m = self.name2marker.get(low)
+        if m:
+            return [m]
+        if any(ch in low for ch in '*?['):
+            rx = re.compile(fnmatch.translate(low))
+            return [mk for nm, mk in self.name2marker.items()
+                    if rx.match(nm)]
+        return []
+
     def started_since(self, r, m):
         """a start-class request for marker m was dispatched after r"""
         for x in self.world.reqs:
             if x.cmd in self.START_CLASS and x.sent_seq is not None and \
                     x.sent_seq > r.sent_seq:
-                if x.wname is None or \
-                        self.name2marker.get(x.wname.lower()) == m:
+                if x.wname is None or m in self.markers_of(x.wname):
                     return True
         return False
 
@@ -91,8 +108,7 @@ class C02Episode(Episode):
             if r.cmd in ('stop', 'restart'):
                 return list(self.name2marker.values())
             return []
-        m = self.name2marker.get(r.wname.lower())
-        return [m] if m else []
+        return self.markers_of(r.wname)
 
     def on_reply(self, r, ent):
         if r.cmd not in ('stop', 'restart', 'rm', 'quit') or not r.waiting:
@@ -254,6 +270,19 @@ class C02(Prop):
         ops = gen.gen_history(rng, cfg, n, self.REQS, self.WEIGHTS,
                               second_req_kinds=['incr', 'decr', 'kill',
                                                 'signal', 'status', 'stop'])
+        nw_ = len(cfg['watchers'])
+        if nw_ >= 3:
+            for op in ops:
+                if op['op'] == 'req' and op['cmd'] in ('restart', 'stop',
+                                                       'start') and \
+                        op.get('w') is not None and rng.random() < 0.15:
+                    # several watchers addressed by a pattern - not all
+                    keep = rng.randrange(nw_)
+                    pat = 'w[%s]' % ''.join(str(i) for i in range(nw_)
+                                            if i != keep)
+                    op['w'] = None
+                    op.pop('case', None)
+                    op['props'] = {'name': pat}
         if rng.random() < 0.2:
             # an on-demand watcher: started by a socket event, outside the
             # command lock (the statement's exception clause)
